@@ -202,8 +202,11 @@ def run_real(c, ctx):
     kw, seed, adv = sweeps.strategy_opts(c['strategy'])
     var_names = labelled.spell_var_names(desc, rng)
     var_dims = labelled.spell_var_dims(desc, rng)
-    common_kw = dict(var_names=var_names, var_dims=var_dims, var_coords=desc['var_coords'] or None,
-                     constants=desc['constants'] or None, resources=desc['resources'] or None, attrs=desc['attrs'] or None)
+    import copy
+    own = copy.deepcopy      # the library gets its own copies: what it does to them must not leak into the expectation
+    common_kw = dict(var_names=var_names, var_dims=var_dims, var_coords=own(desc['var_coords']) or None,
+                     constants=own(desc['constants']) or None, resources=own(desc['resources']) or None,
+                     attrs=own(desc['attrs']) or None)
     combos = sweeps.py_combos(sw, rng.choice(['dict', 'pairs']))
     cases_d = sweeps.py_cases(sw, 'dict')
     cases_t = sweeps.py_cases(sw, 'tuple')
